@@ -172,6 +172,20 @@ func (g *gatedBody) Read(p []byte) (int, error) {
 }
 func (g *gatedBody) Close() error { return nil }
 
+// faultyBody serves a prefix of the body and then fails: the backend announced more and hung up
+type faultyBody struct {
+	data *strings.Reader
+}
+
+func (f *faultyBody) Read(p []byte) (int, error) {
+	n, err := f.data.Read(p)
+	if err == io.EOF {
+		return n, io.ErrUnexpectedEOF
+	}
+	return n, err
+}
+func (f *faultyBody) Close() error { return nil }
+
 var bodies = []struct{ body, enc string }{
 	{`{"a":1,"secret":"MARKER-json-body-0001"}`, "application/json"},
 	{"MARKER-plain-text-body-0002", "text/plain"},
@@ -369,6 +383,46 @@ func main() {
 				p := proxy.NewHTTPProxyWithHTTPExecutor(be, exec, be.Decoder)
 				emitProxy(m[0], m[1], rp, observeCtx(ctx, p, rp, "http://h/slow"), "proxy-slow-body")
 				cancel()
+			}
+		}
+	}
+
+	// ---- proxy level: announced lengths (known, unknown = chunked / close-delimited) and a body that
+	//      fails after a prefix (the status handlers drop the body of a failed read, the code stays) ----
+	for _, m := range [][2]cfgval{{detailsVals[0], codeVals[0]}, {detailsVals[0], codeVals[1]}, {detailsVals[2], codeVals[0]}} {
+		for _, code := range []int{201, 404, 418, 503} {
+			for bi, b := range bodies[:3] {
+				for _, cl := range []int64{-1, int64(len(b.body)), 0} {
+					rp := reply{code, b.body, b.enc}
+					be := &config.Backend{Encoding: encoding.JSON, Decoder: encoding.JSONDecoder, ExtraConfig: extra(m[0], m[1])}
+					exec := func(_ context.Context, _ *http.Request) (*http.Response, error) {
+						h := http.Header{}
+						if rp.enc != "" {
+							h.Set("Content-Type", rp.enc)
+						}
+						return &http.Response{StatusCode: rp.code, Header: h, ContentLength: cl, Body: io.NopCloser(strings.NewReader(rp.body))}, nil
+					}
+					p := proxy.NewHTTPProxyWithHTTPExecutor(be, exec, be.Decoder)
+					emitProxy(m[0], m[1], rp, observe(p, rp, fmt.Sprintf("http://h/cl/%d", cl)), "proxy-content-length")
+				}
+				if code >= 400 && bi < 2 {
+					// 7 bytes arrive, then the connection breaks: what the handlers keep is the empty body
+					sent := b.body
+					if len(sent) > 7 {
+						sent = sent[:7]
+					}
+					rp := reply{code, "", b.enc}
+					be := &config.Backend{Encoding: encoding.JSON, Decoder: encoding.JSONDecoder, ExtraConfig: extra(m[0], m[1])}
+					exec := func(_ context.Context, _ *http.Request) (*http.Response, error) {
+						h := http.Header{}
+						if rp.enc != "" {
+							h.Set("Content-Type", rp.enc)
+						}
+						return &http.Response{StatusCode: rp.code, Header: h, ContentLength: 100, Body: &faultyBody{strings.NewReader(sent)}}, nil
+					}
+					p := proxy.NewHTTPProxyWithHTTPExecutor(be, exec, be.Decoder)
+					emitProxy(m[0], m[1], rp, observe(p, rp, "http://h/fault"), "proxy-body-fault")
+				}
 			}
 		}
 	}
